@@ -78,6 +78,43 @@ def extra(run, cases, oracle, tier):
                 if np.abs(em[0] - relm["uup4"][(...,) + idxm]).max() > 1e-12:
                     run.violation({"clause": "TetradAdaptedToFluid"}, "e0 of the fluid-adapted tetrad is not the fluid 4-velocity",
                                   {"class": c["cls"], "seed": c["seed"]})
+        # electric and magnetic parts in the frame of a fluid that MOVES with respect to the slicing: the oracle's exact Weyl tensor
+        # contracted (numpy) with the code's own u^mu, the exact inverse metric and epsilon_abcd = sqrt(-g) [abcd]
+        if not c.get("vacuum") and (ci <= 3 or tier != "quick"):
+            g4 = GR.as_array(oracle[ci]["gdown4"], "gdown4")
+            g4u = GR.as_array(oracle[ci]["gup4"], "gup4")
+            gd = GR.as_array(oracle[ci]["gdet"], "gdet")
+            if g4 is not None and g4u is not None and gd is not None:
+                import itertools
+                eps = np.zeros((4, 4, 4, 4))
+                for perm in itertools.permutations(range(4)):
+                    sgn = np.linalg.det(np.eye(4)[list(perm)])
+                    eps[perm] = sgn * np.sqrt(-gd)
+                eps_uudd = np.einsum("ac,bd,abef->cdef", g4u, g4u, eps)
+
+                def frame_error(refine):
+                    relm, idxm, _ = GR.build_instance(c, oracle[ci], 4, opts={"_moving_fluid": True}, refine=refine)
+                    atm = (...,) + idxm
+                    u = relm["uup4"][atm]
+                    if not np.all(np.isfinite(u)):
+                        # the fixed coordinate velocity is superluminal for this metric (gamma_ij v^i v^j >= 1): no such fluid
+                        seen["frame", refine] = (0.0, 0.0)
+                        return 0.0
+                    Eref = np.einsum("b,d,abcd->ac", u, u, W)
+                    Bref = 0.5 * np.einsum("b,f,abcd,cdef->ae", u, u, W, eps_uudd)
+                    eE = np.abs(relm["eweyl_u_down4"][atm] - Eref).max()
+                    eB = np.abs(relm["bweyl_u_down4"][atm] - Bref).max()
+                    seen["frame", refine] = (eE, eB)
+                    return max(eE, eB) / max(1.0, np.abs(W).max())
+
+                run.count((c["cls"], c["seed"], "moving-fluid frame"))
+                ok, _ = GR.shrinks_under_refinement(frame_error, 4, 5e-5)
+                if not ok:
+                    eE, eB = seen["frame", 1]
+                    run.violation({"clause": "FluidFrameParts", "part": "B" if eB > eE else "E"},
+                                  f"eweyl_u_down4 / bweyl_u_down4 for a fluid moving with v = (0.25, -0.15, 0.1) on the {c['cls']} spacetime (seed {c['seed']}) "
+                                  f"differ from C_abcd u^b u^d and (1/2) u^b u^f C_abcd eps^cd_ef by {eE:.3g} / {eB:.3g} (no convergence at half the spacing)",
+                                  {"class": c["cls"], "seed": c["seed"]})
         if c["cls"] in ("wave-zone", "minkowski-like"):
             (i1, j1), (i2, j2) = inv["quasi-Kinnersley"], inv["other"]
 
